@@ -786,10 +786,75 @@ fn builder_case(ch: &mut Choices<'_>, st: &mut Stats) -> CaseResult {
     Ok(())
 }
 
+/// Filters at the parser's configured limits (regex compiled size, nesting depth, long
+/// operand lists): the C API must draw every line where the Rust API draws it.
+fn limits_texts() -> Vec<String> {
+    let mut v = Vec::new();
+    for n in [1000usize, 10_000, 30_000, 60_000, 100_000, 300_000, 1_000_000] {
+        v.push(format!("s ~ \".{{{n}}}\""));
+        v.push(format!("s matches r\"[a-z0-9]{{{n}}}\""));
+    }
+    for n in [2000usize, 20_000, 50_000] {
+        v.push(format!("s ~ \"(ab|cd){{{n}}}\""));
+    }
+    for d in [64usize, 127, 128, 129, 130, 200] {
+        v.push(format!("{}t{}", "(".repeat(d), ")".repeat(d)));
+        v.push(format!("{}t", "not ".repeat(d)));
+    }
+    v.push(format!("s wildcard \"{}\"", "a*".repeat(500)));
+    v.push(format!("n in {{{}}}", "1 2..3 ".repeat(5000)));
+    v
+}
+
+fn limits_case(ch: &mut Choices<'_>, st: &mut Stats) -> CaseResult {
+    let texts = limits_texts();
+    let text = &texts[ch.draw(texts.len())];
+    let (cs, _r) = small_scheme();
+    let rs: &wirefilter::Scheme = &cs;
+    let case = json!({"filter": if text.len() > 120 { format!("{}... ({} bytes)", &text[..100], text.len()) } else { text.clone() }});
+    st.eval();
+    ffi::wirefilter_clear_last_error();
+    let rust = catch(|| rs.parse(text).map(|a| serde_json::to_string(&a).unwrap()).map_err(|e| e.to_string())).map_err(|p| Fail::new("parse-panic", p, case.clone()))?;
+    let pr = ffi::wirefilter_parse_filter(&cs, text.as_ptr().cast(), text.len());
+    match (&rust, &pr.status, &pr.ast) {
+        (Ok(j), Status::Success, Some(ast)) => {
+            let cj = take_string(ffi::wirefilter_serialize_filter_to_json(ast)).map_err(|e| Fail::new("c-api-serialize-filter", e, case.clone()))?;
+            if &cj != j {
+                return Err(Fail::new("ast-json-differs", "C API and Rust API serialise the accepted filter differently".to_string(), case));
+            }
+            st.class("limits:accepted-by-both");
+        }
+        (Err(e), Status::Error, None) => {
+            let got = check_last_error("wirefilter_parse_filter", &case)?;
+            if got != substitute_nul(e) {
+                return Err(Fail::new(
+                    "parse-error-text-differs",
+                    format!("C last error: {}\nRust error: {}", String::from_utf8_lossy(&got).lines().last().unwrap_or(""), e.lines().last().unwrap_or("")),
+                    case,
+                ));
+            }
+            st.class("limits:rejected-by-both");
+        }
+        (r, s, _) => {
+            return Err(Fail::new(
+                "parse-outcome-differs",
+                format!("Rust API: {}; C API status {s:?}", if r.is_ok() { "accepted".to_string() } else { format!("rejected ({})", r.as_ref().unwrap_err().lines().last().unwrap_or("")) }),
+                case,
+            ));
+        }
+    }
+    if let Some(a) = pr.ast {
+        ffi::wirefilter_free_parsed_filter(a);
+    }
+    st.nontrivial(text);
+    Ok(())
+}
+
 pub fn subs() -> Vec<Sub> {
     vec![
         Sub { name: "diff", f: Box::new(diff_case) },
         Sub { name: "builder", f: Box::new(builder_case) },
+        Sub { name: "limits", f: Box::new(limits_case) },
         Sub { name: "errors", f: Box::new(errors_case) },
         Sub { name: "threads", f: Box::new(threads_case) },
         Sub { name: "panic", f: Box::new(panic_case) },
@@ -809,6 +874,7 @@ pub fn run(run: &Run) {
     let n = run.tier.pick(60_000, 2_000_000);
     run.random("diff", n, 300, get("diff"));
     run.random("builder", n, 40, get("builder"));
+    run.enumerate("limits", limits_texts().len() as u64, &|i| vec![i as u32], get("limits"));
     run.random("errors", n, 60, get("errors"));
     run.random("threads", n / 20, 40, get("threads"));
 }
